@@ -158,7 +158,23 @@ def main(tier):
     outs = set()
     accepted = 0
     vacuous = []
-    for sub, bad, n, obs in vdrv.pmap(_one, subs, chunksize=1):
+    # the extra (hand-picked) subsets first, then by size: what a deadline cuts off is the tail of the largest size
+    extra = [tuple(d for d in DECLS if d in c) for c in EXTRA_SUBSETS]
+    subs = sorted(set(subs), key=lambda c: (c not in extra, len(c), [list(DECLS).index(d) for d in c]))
+    done_by_size = {}
+    B = 64
+    capped_at = None
+    results = []
+    for start in range(0, len(subs), B):
+        if ck.out_of_time():
+            capped_at = start
+            ck.cap("deadline after %d of %d subsets (completed per size: %s); the remaining subsets all have %d-%d declarations" % (
+                start, len(subs), dict(sorted(done_by_size.items())), len(subs[start]), len(subs[-1])))
+            break
+        for r in vdrv.pmap(_one, subs[start:start + B], chunksize=1):
+            results.append(r)
+            done_by_size[len(r[0])] = done_by_size.get(len(r[0]), 0) + 1
+    for sub, bad, n, obs in results:
         nruns += n
         outs.add((sub, obs))
         if obs[0] == "ok":
@@ -178,4 +194,5 @@ def main(tier):
     ck.sample({"subset": ["B", "D", "f1"], "one_order": program(("D", "main", "B", "f1"), ("f1", "B", "D"))})
     ck.assumptions += ["messages and positions may differ between permutations; only the status category and stdout are compared"]
     ck.finish({"evaluations": nruns, "distinct_nontrivial": len(outs), "rule": "every dependency-closed subset of <= %d declarations (+ main)%s in all permutations; distinct = distinct (subset, behaviour) pairs" % (maxsize, "" if tier == "thorough" else ", plus the dependency closure of every declaration (<= 5) and of every pair (<= 4)"),
-               "subsets": len(subs), "subsets_accepted": accepted})
+               "subsets": len(subs), "subsets_completed": len(results), "completed_per_size": {str(k): v for k, v in sorted(done_by_size.items())}, "subsets_accepted": accepted},
+              exhaustive=capped_at is None)
